@@ -167,6 +167,13 @@ fn observe(rng: &mut Rng, size: i64) -> Step {
     if rng.chance(1, 40) {
         return Step::Observe { window: 0, take: 1 };
     }
+    // ranges given backwards in absolute time, by less than the size of the jump: from the second pass of a
+    // repeated period into the first one they run forwards on the wall clock
+    if rng.chance(1, 14) {
+        let inside = rng.range(1, size.max(2) - 1);
+        let back = *rng.pick(&[1, 60, size / 2, size - 60, size - 1, inside, size, size + 60]);
+        return Step::Observe { window: -back.max(1), take: rng.range(1, 8) as u32 };
+    }
     let window = *rng.pick(&[1, 30, 59, 60, 61, 90, size / 2, size - 1, size, size + 1, 2 * size, 3600, 7200, 86400, 3 * 86400, 40 * 86400]);
     Step::Observe { window: window.max(1), take: rng.range(1, 8) as u32 }
 }
@@ -191,6 +198,21 @@ pub fn decorate(rng: &mut Rng, sc: &mut Scenario) {
     }
     if rng.chance(1, 12) {
         sc.bound_days = Some(*rng.pick(&[1, 2, 7, 30, 366]));
+        // half of them on an expression whose closed periods exceed a small bound, observed over weeks: the stream
+        // of a bounded context is then not contiguous (an interval is cut at the bound and the next one starts
+        // later), and every interval must still be mapped from its own wall-clock bounds
+        if rng.chance(1, 2) {
+            sc.bound_days = Some(*rng.pick(&[1, 1, 2]));
+            sc.expr = rng.pick(&["Mo,We,Sa 10:00-12:00", "Tu,Fr 09:00-17:00; Su 12:00-13:00 unknown", "Su 01:30-03:30; We 12:00-14:00", "Mo[1] 10:00-12:00; Th 02:00-03:00", "week 01-53/2 Sa,Su 01:00-04:00"]).to_string();
+            for st in sc.steps.iter_mut() {
+                if let Step::Observe { window, take } = st {
+                    if rng.chance(1, 2) {
+                        *window = rng.range(5, 45) * 86400 + rng.range(0, 86399);
+                        *take = rng.range(4, 14) as u32;
+                    }
+                }
+            }
+        }
     }
     for st in sc.steps.iter_mut() {
         match st {
